@@ -39,7 +39,7 @@ func vhIndex(name string) int {
 func c04(args []string) int {
 	run := NewRun("C04", args)
 	g := &rtGen{r: run.R}
-	run.Sum.Rule = "configurations: 1-8 virtual hosts, 0-3 domains each drawn without repetition (93%) from an overlapping pool (exact / mixed case / *.suffix / *suffix / :port / :* / default / IPv6 literal), 4% odd or rejected domains, 3% unrestricted draws (duplicates), 0-6 routes per host mixing prefix / path / regex (+header, method, regex-header matchers), variable (and/or), DSL and RPC rules, 1% unbuildable routes; per configuration a battery of requests (Host from a pool with/without port, mixed case, malformed, empty, unset; path; method; 0-3 headers; variables). Each request is looked up with the real MatchRoute and MatchAllRoutes and on a probe table (same domains, one catch-all route per host) that shows which virtual host was selected. A lookup is non-trivial when the configuration was accepted, has >= 2 virtual hosts and the Host value is well formed; distinct by (configuration number, request)."
+	run.Sum.Rule = "configurations: 1-8 virtual hosts, 0-3 domains each drawn without repetition (95%) from an overlapping pool (exact / mixed case / *.suffix / *suffix / :port / :* / default / IPv6 literal), 2% odd or rejected domains, 3% unrestricted draws (duplicates), 0-6 routes per host mixing prefix / path / regex (+header, method, regex-header matchers), variable (and/or), DSL and RPC rules, 4% of configurations with an unbuildable route; per configuration a battery of requests (Host from a pool with/without port, mixed case, malformed, empty, unset; path; method; 0-3 headers; variables). Each request is looked up with the real MatchRoute and MatchAllRoutes and on a probe table (same domains, one catch-all route per host) that shows which virtual host was selected. A lookup is non-trivial when the configuration was accepted, has >= 2 virtual hosts and the Host value is well formed; distinct by (configuration number, request)."
 	ncfg := run.N(260, 2600)
 	nreq := run.N(14, 24)
 	sh := run.NewShard(rtShardHeader, "rt_case", "rt_mismatches")
